@@ -1050,10 +1050,12 @@ func cmdSelftest(args []string) {
 	props := fs.String("props", "C01", "comma-separated properties")
 	seeds := fs.Int("seeds", 40, "seeds per property")
 	reps := fs.Int("reps", 3, "repetitions per GOMAXPROCS value")
+	race := fs.Bool("race", false, "use the -race build of the worker")
 	fs.Parse(args)
 	bad := 0
 	for _, prop := range strings.Split(*props, ",") {
-		bin, _ := build("selftest-"+prop, false)
+		bin, _ := build("selftest-"+prop, *race)
+		raceBins[bin] = *race
 		type key struct{ run int }
 		ref := map[int]string{}
 		var mu sync.Mutex
